@@ -305,8 +305,6 @@ def main(modname, argv=None):
             viols.append((idx, {'sig': 'crash', 'what': payload, 'detail': ''}))
     unfinished = getattr(pool, 'unfinished', [])
     extra = {}
-    if hasattr(mod, 'cleanup'):
-        mod.cleanup(prep)
     if hasattr(mod, 'finish'):
         fin = mod.finish(args.tier, [results.get(i) for i in range(len(cases))], cases) or {}
         for v in fin.pop('violations', []):
@@ -348,6 +346,8 @@ def main(modname, argv=None):
     for idx, v in unknown:
         if idx in rerun_sigs:
             v['reproduced_on_rerun'] = v['sig'] in rerun_sigs[idx]
+    if hasattr(mod, 'cleanup'):
+        mod.cleanup(prep)
     for idx, v in unknown:
         if v['sig'] in reported:
             reported[v['sig']][1] += 1
